@@ -66,8 +66,19 @@ impl Rng {
 
 static STATICS: RwLock<Vec<(u32, &'static str)>> = RwLock::new(Vec::new());
 
+/// every static text ever used, so that re-running a session does not leak again
+static LEAKED: RwLock<Vec<&'static str>> = RwLock::new(Vec::new());
+
 pub fn set_static(kind: u32, text: &str) {
-    let leaked: &'static str = Box::leak(text.to_string().into_boxed_str());
+    let known = LEAKED.read().unwrap().iter().find(|s| **s == text).copied();
+    let leaked: &'static str = match known {
+        Some(s) => s,
+        None => {
+            let s: &'static str = Box::leak(text.to_string().into_boxed_str());
+            LEAKED.write().unwrap().push(s);
+            s
+        }
+    };
     let mut t = STATICS.write().unwrap();
     t.retain(|(k, _)| *k != kind);
     t.push((kind, leaked));
@@ -96,6 +107,29 @@ impl Syntax for K {
     fn static_text(self) -> Option<&'static str> {
         static_of(self.0)
     }
+}
+
+// ---------------------------------------------------------------------------------------------
+// counting allocator (allocation-level oracle: net bytes after everything is dropped)
+
+pub struct Counting;
+pub static LIVE: std::sync::atomic::AtomicIsize = std::sync::atomic::AtomicIsize::new(0);
+unsafe impl std::alloc::GlobalAlloc for Counting {
+    unsafe fn alloc(&self, l: std::alloc::Layout) -> *mut u8 {
+        LIVE.fetch_add(l.size() as isize, std::sync::atomic::Ordering::Relaxed);
+        std::alloc::System.alloc(l)
+    }
+    unsafe fn dealloc(&self, p: *mut u8, l: std::alloc::Layout) {
+        LIVE.fetch_sub(l.size() as isize, std::sync::atomic::Ordering::Relaxed);
+        std::alloc::System.dealloc(p, l)
+    }
+    unsafe fn realloc(&self, p: *mut u8, l: std::alloc::Layout, new: usize) -> *mut u8 {
+        LIVE.fetch_add(new as isize - l.size() as isize, std::sync::atomic::Ordering::Relaxed);
+        std::alloc::System.realloc(p, l, new)
+    }
+}
+pub fn live_bytes() -> isize {
+    LIVE.load(std::sync::atomic::Ordering::Relaxed)
 }
 
 // ---------------------------------------------------------------------------------------------
